@@ -108,7 +108,10 @@ pub fn run(args: &[String]) {
             for _ in 0..n { let (r1, r2) = (rng.below(n), rng.below(n)); for j in 0..n { a.swap(r1 * n + j, r2 * n + j); } }
         }
         if rng.chance(0.08) { let c = rng.below(n); for i in 0..n { a[i * n + c] = 0.0; } } // zero column
-        let bs: Vec<Vec<f64>> = (0..2).map(|_| (0..n).map(|_| rng.range(-4.0, 4.0)).collect()).collect();
+        // right-hand sides: dense ones, and sparse ones (unit vectors, zero blocks) whose exact zeros meet the row exchanges
+        let mut bs: Vec<Vec<f64>> = (0..2).map(|_| (0..n).map(|_| rng.range(-4.0, 4.0)).collect()).collect();
+        { let mut e = vec![0.0; n]; e[rng.below(n)] = 1.0; bs.push(e); }
+        bs.push((0..n).map(|_| if rng.chance(0.6) { 0.0 } else { rng.range(-4.0, 4.0) }).collect());
         match rng.below(12) {
             0 => w.real(n, n + 1, n, &{ let mut v = a.clone(); v.extend(vec![0.0; n]); v }, &bs, "shape"),
             1 => w.real(n, n, n + 1, &a, &bs, "shape"),
@@ -121,6 +124,31 @@ pub fn run(args: &[String]) {
         let br: Vec<f64> = (0..nc).map(|_| rng.range(-4.0, 4.0)).collect();
         let bi: Vec<f64> = (0..nc).map(|_| rng.range(-4.0, 4.0)).collect();
         if rng.chance(0.08) { w.complex(nc, nc + 1, &ar, &ai, &br, &bi, "shapec"); } else { w.complex(nc, nc, &ar, &ai, &br, &bi, "randc"); }
+        // sparse complex systems: permuted-triangular / permutation-like matrices with unit or sparse right-hand sides
+        {
+            let mut pr = vec![0.0; nc * nc]; let mut pi = vec![0.0; nc * nc];
+            let mut perm: Vec<usize> = (0..nc).collect();
+            for i in (1..nc).rev() { let j = rng.below(i + 1); perm.swap(i, j); }
+            for i in 0..nc {
+                let j = perm[i];
+                if rng.chance(0.5) { pr[i * nc + j] = rng.range(0.5, 2.0); } else { pi[i * nc + j] = rng.range(0.5, 2.0); }
+                if rng.chance(0.4) { let j2 = rng.below(nc); if perm.iter().position(|&q| q == j2).unwrap() > i { pr[i * nc + j2] += rng.range(-1.0, 1.0); } }
+            }
+            let mut er = vec![0.0; nc]; let mut ei = vec![0.0; nc];
+            if rng.chance(0.5) { er[rng.below(nc)] = 1.0; } else { ei[rng.below(nc)] = -2.0; }
+            w.complex(nc, nc, &pr, &pi, &er, &ei, "sparsec");
+        }
+    }
+    // well-conditioned matrices at the edges of the f64 range: the factorisation and the solve must not break down
+    for (k, sc) in [1e-170, 1e170, 1e-300, 1e300, 1e-310].iter().enumerate() {
+        let n = 3;
+        let a: Vec<f64> = [4.0, 1.0, -2.0, 1.0, 3.0, 0.5, -1.0, 2.0, 5.0].iter().map(|v| v * sc).collect();
+        let b: Vec<f64> = [1.0, -2.0, 0.5].iter().map(|v| v * sc).collect();
+        w.real(n, n, n, &a, &[b.clone()], "scaled");
+        if k < 4 {
+            let ai: Vec<f64> = [0.5, -1.0, 0.25, 2.0, 0.0, 1.0, -0.5, 1.5, 1.0].iter().map(|v| v * sc).collect();
+            w.complex(n, n, &a, &ai, &b, &b, "scaledc");
+        }
     }
     std::fs::write(format!("{}.ops", prefix), &w.ops).unwrap();
     std::fs::write(format!("{}.impl", prefix), &w.out).unwrap();
